@@ -311,7 +311,15 @@ def _run_built(case, cls, kw, exact, outer):
         try:
             from .. import dump
             kwx = {"inner": inner_x, "tag": ""} if outer is not None else kw
-            res["xline"] = dict({"suite": "serdex", "cls": xcls, "kw": [[k, xwire(v)] for k, v in kwx.items()], "opts": XOPTS},
+            order = {f["name"]: i for i, f in enumerate(case["fields"])}
+
+            def in_field_order(w):
+                # (an instance handed in as an argument keeps its attribute order in the model; the real __dict__ order is
+                #  the order the constructor happened to set them in, which == does not look at: field order is used)
+                if isinstance(w, dict) and "o" in w and w["o"][0] in ("X", "XSub"):
+                    return {"o": [w["o"][0], sorted(w["o"][1], key=lambda kv: order.get(kv[0], len(order)))]}
+                return w
+            res["xline"] = dict({"suite": "serdex", "cls": xcls, "kw": [[k, in_field_order(xwire(v))] for k, v in kwx.items()], "opts": XOPTS},
                                 **xtables(case, [x], [doc]))
             if case.get("compact"):
                 # serialize(compact=True) reads the wrapper flags from the class's OWN dict (an inheriting subclass is
